@@ -758,4 +758,157 @@ Proof.
   rewrite Hl, Nat.eqb_refl. simpl.
   destruct (Nat.eqb (length rids) (length tcells)) eqn:E; [apply Nat.eqb_eq in E; contradiction|reflexivity].
 Qed.
+
+(* ---------------- the keys of _refsystems ---------------- *)
+Lemma call_refsys (st : stateV) h :
+  e_refsys (s_map (fst (callV st h))) = e_refsys (s_map st) \/
+  exists arg ps g frs, nth_error (s_objs st) h = Some arg /\
+    mol_eq vec (s_heap st) (e_ref (s_map st)) arg = Ok true /\
+    mol_graph vec (s_heap st) arg = Ok g /\ frames_of g ps = Ok frs /\
+    e_refsys (s_map (fst (callV st h))) = dict_update (e_refsys (s_map st)) frs.
+Proof.
+  unfold call.
+  destruct (nth_error (s_objs st) h) as [arg|] eqn:Hh; [|left; reflexivity].
+  destruct (mol_eq vec (s_heap st) (e_ref (s_map st)) arg) as [[|]|e] eqn:He; try (left; reflexivity).
+  destruct (mol_positions vec (s_heap st) arg) as [ps|] eqn:Hp; simpl; [|left; reflexivity].
+  destruct (mol_graph vec (s_heap st) arg) as [g|] eqn:Hg; simpl; [|left; reflexivity].
+  destruct (frames_of g ps) as [frs|] eqn:Hf; [|left; reflexivity].
+  right. exists arg, ps, g, frs. repeat split; auto.
+  repeat (match goal with |- context [match ?x with _ => _ end] => destruct x end; simpl); reflexivity.
+Qed.
+
+Definition accepted_have_graph (g0 : graph) (st : stateV) (o : op vec) : Prop :=
+  match o with
+  | Call h => forall arg, nth_error (s_objs st) h = Some arg ->
+                mol_eq vec (s_heap st) (e_ref (s_map st)) arg = Ok true ->
+                mol_graph vec (s_heap st) arg = Ok g0
+  | _ => True
+  end.
+Fixpoint good_ops (g0 : graph) (st : stateV) (ops : list (op vec)) : Prop :=
+  match ops with
+  | [] => True
+  | o :: ops' => accepted_have_graph g0 st o /\ good_ops g0 (fst (stepV st o)) ops'
+  end.
+
+Lemma step_keys g0 (st : stateV) o :
+  map fst (e_refsys (s_map st)) = anchors g0 -> accepted_have_graph g0 st o ->
+  map fst (e_refsys (s_map (fst (stepV st o)))) = anchors g0.
+Proof.
+  intros Hk Hacc. destruct o as [h| |i v|i v|h i v]; simpl.
+  - change (map fst (e_refsys (s_map (fst (stepV st (Call h))))) = anchors g0). rewrite fst_step_call.
+    destruct (call_refsys st h) as [E|(arg & ps & g & frs & Hh & He & Hg & Hf & E)]; rewrite E; [exact Hk|].
+    simpl in Hacc. rewrite (Hacc arg Hh He) in Hg. inversion Hg; subst g.
+    rewrite dict_update_keys_in; [exact Hk|]. intros k Hin. rewrite Hk, <- (frames_keys _ _ _ Hf). exact Hin.
+  - exact Hk.
+  - destruct (poke vec (s_heap st) (e_ref (s_map st)) i v); exact Hk.
+  - destruct (poke vec (s_heap st) (e_tgt (s_map st)) i v); exact Hk.
+  - destruct (nth_error (s_objs st) h) as [m|]; [|exact Hk].
+    destruct (poke vec (s_heap st) m i v); exact Hk.
+Qed.
+
+Theorem keys_invariant hp objs ref tgt st0 g0 :
+  buildV hp objs ref tgt = Ok st0 -> mol_graph vec hp ref = Ok g0 ->
+  forall ops, good_ops g0 st0 ops -> map fst (e_refsys (s_map (runV st0 ops))) = anchors g0.
+Proof.
+  intros Hb Hg. destruct (build_facts _ _ _ _ _ _ Hb Hg) as (_ & _ & _ & _ & Hk & _).
+  clear Hb. intros ops. revert st0 Hk. induction ops as [|o ops IH]; intros st0 Hk Hgood; simpl in *; [exact Hk|].
+  destruct Hgood as [Ha Hr]. apply IH; [|exact Hr]. apply step_keys; assumption.
+Qed.
+
+(* ---------------- a valid argument stays valid ---------------- *)
+Definition top_other (tl : list loc) (h h' : heapV) : Prop :=
+  forall l, ~ In l tl -> nth_error (top h') l = nth_error (top h) l.
+
+Lemma step_top_other (st : stateV) o :
+  top_other (m_top (e_tgt (s_map st))) (s_heap st) (s_heap (fst (stepV st o))).
+Proof.
+  intros l Hl. destruct o as [h| |i v|i v|h i v].
+  - rewrite fst_step_call. destruct (call_framed st h) as (_ & _ & Hn & _). apply Hn; exact Hl.
+  - reflexivity.
+  - simpl. unfold poke. destruct (nth_res _ i); simpl; [|reflexivity]. destruct (nth_res _ l0); reflexivity.
+  - simpl. unfold poke. destruct (nth_res _ i); simpl; [|reflexivity]. destruct (nth_res _ l0); reflexivity.
+  - simpl. destruct (nth_error (s_objs st) h) as [m|]; [|reflexivity].
+    unfold poke. destruct (nth_res _ i); simpl; [|reflexivity]. destruct (nth_res _ l0); reflexivity.
+Qed.
+
+Lemma run_top_other ops : forall st : stateV,
+  top_other (m_top (e_tgt (s_map st))) (s_heap st) (s_heap (runV st ops)).
+Proof.
+  induction ops as [|o ops IH]; intros st l Hl; simpl; [reflexivity|].
+  destruct (step_lab st o) as [_ (_ & M2 & _)].
+  rewrite IH by (rewrite M2; exact Hl). apply step_top_other; exact Hl.
+Qed.
+
+Definition vproj (tg : tcell * gcell vec) := (fst tg, glab (snd tg)).
+
+Lemma zip_res_proj (ts : list tcell) (gs gs' : list (gcell vec)) v :
+  map glab gs' = map glab gs -> zip_res ts gs = Ok v ->
+  exists v', zip_res ts gs' = Ok v' /\ map vproj v' = map vproj v.
+Proof.
+  revert gs gs' v; induction ts as [|t ts IH]; intros [|g gs] [|g' gs'] v E H; simpl in *; try discriminate.
+  - inversion H; subst. exists []; auto.
+  - destruct (zip_res ts gs) as [w|] eqn:Z; simpl in H; [|discriminate]. inversion H; subst.
+    assert (Hc : glab g' = glab g) by (exact (f_equal (hd (glab g')) E)).
+    assert (Hr : map glab gs' = map glab gs) by (exact (f_equal (@tl _) E)).
+    destruct (IH _ _ _ Hr Z) as [w' [Z' Hw]]. rewrite Z'. simpl. exists ((t, g') :: w'). split; [reflexivity|].
+    simpl. unfold vproj at 1 3. simpl. rewrite Hc, Hw. reflexivity.
+Qed.
+
+Lemma mol_views_stable (h h' : heapV) m v :
+  lab_ext h h' -> (forall l, In l (m_top m) -> nth_error (top h') l = nth_error (top h) l) ->
+  mol_views vec h m = Ok v -> exists v', mol_views vec h' m = Ok v' /\ map vproj v' = map vproj v.
+Proof.
+  intros L Ht. unfold mol_views.
+  assert (Hrt : read_t vec h' (m_top m) = read_t vec h (m_top m)).
+  { unfold read_t. apply mapM_ext. intros l Hl. unfold nth_res. rewrite (Ht l Hl). reflexivity. }
+  rewrite Hrt. destruct (read_t vec h (m_top m)) as [ts|]; simpl; [|discriminate].
+  destruct (read_g vec h (m_atoms m)) as [gs|] eqn:Eg; simpl; [|discriminate].
+  destruct (read_g_lab _ _ _ _ L Eg) as [gs' [Eg' Hl]]. rewrite Eg'. simpl.
+  intros Z. eapply zip_res_proj; eauto.
+Qed.
+
+Lemma all2_proj (va vb va' vb' : list (tcell * gcell vec)) :
+  map vproj va' = map vproj va -> map vproj vb' = map vproj vb ->
+  all2 (atom_eq vec) va' vb' = all2 (atom_eq vec) va vb.
+Proof.
+  revert vb va' vb'; induction va as [|a va IH]; intros vb [|a' va'] vb' Ea Eb; simpl in *; try discriminate; [reflexivity|].
+  destruct vb as [|b vb], vb' as [|b' vb']; simpl in *; try discriminate; [reflexivity|].
+  assert (Ha : vproj a' = vproj a) by (exact (f_equal (hd (vproj a')) Ea)).
+  assert (Hb : vproj b' = vproj b) by (exact (f_equal (hd (vproj b')) Eb)).
+  rewrite (IH vb va' vb' (f_equal (@tl _) Ea) (f_equal (@tl _) Eb)). f_equal.
+  unfold vproj, glab in Ha, Hb. destruct a as [ta ga], a' as [ta' ga'], b as [tb gb], b' as [tb' gb'].
+  simpl in *. inversion Ha; inversion Hb; subst. unfold atom_eq; simpl. congruence.
+Qed.
+
+Lemma mol_eq_stable (h h' : heapV) a b v :
+  lab_ext h h' ->
+  (forall l, In l (m_top a) \/ In l (m_top b) -> nth_error (top h') l = nth_error (top h) l) ->
+  mol_eq vec h a b = Ok v -> mol_eq vec h' a b = Ok v.
+Proof.
+  intros L Ht. unfold mol_eq.
+  destruct (negb (String.eqb (m_name b) (m_name a))); [auto|].
+  destruct (negb (Nat.eqb (length (m_atoms b)) (length (m_atoms a)))); [auto|].
+  destruct (mol_views vec h a) as [va|] eqn:Ea; simpl; [|discriminate].
+  destruct (mol_views vec h b) as [vb|] eqn:Eb; simpl; [|discriminate].
+  destruct (mol_views_stable h h' a va L (fun l Hl => Ht l (or_introl Hl)) Ea) as [va' [Ea' Ha]].
+  destruct (mol_views_stable h h' b vb L (fun l Hl => Ht l (or_intror Hl)) Eb) as [vb' [Eb' Hb]].
+  rewrite Ea', Eb'. simpl. intros E; inversion E. rewrite (all2_proj va vb va' vb' Ha Hb). reflexivity.
+Qed.
+
+(* the species verdict on (reference, argument) cannot be changed by any history, provided the target's
+   topology is a different object from the reference's and the argument's (see the design note for what the
+   real code does otherwise) *)
+Theorem valid_stable hp objs ref tgt st0 g0 arg v :
+  buildV hp objs ref tgt = Ok st0 -> mol_graph vec hp ref = Ok g0 ->
+  (forall l, In l (m_top tgt) -> ~ In l (m_top ref) /\ ~ In l (m_top arg)) ->
+  mol_eq vec hp ref arg = Ok v ->
+  forall ops, mol_eq vec (s_heap (runV st0 ops)) ref arg = Ok v.
+Proof.
+  intros Hb Hg Hsep He ops.
+  destruct (build_facts _ _ _ _ _ _ Hb Hg) as (Hh0 & _ & _ & Htgt & _).
+  destruct (run_lab ops st0) as [L _]. pose proof (run_top_other ops st0) as Ht.
+  rewrite Hh0 in L, Ht. rewrite Htgt in Ht.
+  apply (mol_eq_stable hp _ ref arg v L); [|exact He].
+  intros l Hl. apply Ht. intros Hin. destruct (Hsep l Hin) as [H1 H2]. tauto.
+Qed.
 End P.
